@@ -85,7 +85,14 @@ def isinst1 (e : Val) (c : Val) : Bool :=
   | .obj "exc" (.str ec :: _), .obj "class" [.str cn] => (bases ec).contains cn
   | _, _ => false
 
+/-- everything that is raised is a `BaseException` -/
+def isBase (c : Val) : Bool :=
+  match c with
+  | .obj "class" [.str "BaseException"] => true
+  | _ => false
+
 def isinst (e : Val) (c : Val) : Bool :=
+  isBase c ||
   match c with
   | .tuple cs => cs.any (isinst1 e)
   | c => isinst1 e c
